@@ -92,3 +92,26 @@ pub fn route_cost(route: &[EdgeTraversal]) -> f64 {
 pub fn all_allowed(net: &RefNet) -> Vec<bool> {
     vec![true; net.ne()]
 }
+
+/// true when, in any (sub-)search of the recorded call, a label was improved for a vertex that had
+/// already been expanded (the vertex was "re-opened"): its children in the tree may then carry a
+/// state computed from the superseded label.
+pub fn had_reopen(events: &[crate::hooks::Ev]) -> bool {
+    use crate::hooks::Ev;
+    let mut popped: std::collections::HashSet<usize> = std::collections::HashSet::new();
+    for ev in events {
+        match ev {
+            Ev::SearchStart { .. } => popped.clear(),
+            Ev::Pop { vertex, .. } => {
+                popped.insert(*vertex);
+            }
+            Ev::Relax { key_vertex, accepted: true, .. } => {
+                if popped.contains(key_vertex) {
+                    return true;
+                }
+            }
+            _ => {}
+        }
+    }
+    false
+}
